@@ -17,11 +17,18 @@ RULE = ("op histories (wf[i]=v, wf[a:b]=v, bind incl. empty / foreign-only maps,
         "optionally back again) through int, negative, numpy-int and slice keys on 1-d arrays, (n,1) arrays, symbol-free and "
         "mixed Matrices, interleaved with operations on the other live objects, at widths 1..8 plus 16..1024 amplitudes; "
         "constructor arguments as list / tuple / complex ndarray / object ndarray / non-contiguous view / sympy Matrix; "
+        "SHARED STORAGE: further objects made by the constructor from another's `amplitudes`, from views / reshapes / the reverse "
+        "/ a half / a copy of it, from the array the caller built the first object from or still holds (`clone`, `hold` "
+        "steps), on (n,) and (n,1) arrays and Matrices, with accepted, rejected and boundary assignments, bindings, flips and "
+        "save+load on any of them; which objects share a buffer is MEASURED on the implementation at every step "
+        "(np.shares_memory / identical cells), the model is sent the per-object histories that result; after every step every "
+        "live object and every array the caller holds is re-checked; "
         "constructor-only cases of every length 0..9, dicke_state for all (n,k) up to the tier's "
         "width plus invalid requests, the Gosper step on random integers, flip_amplitudes on index vectors (list, tuple, "
         "ndarray, column, view, complex), hand-made amplitude files read by name / file object / pathlib.Path; non-trivial: a history with >=1 rejected and >=1 accepted op, a Dicke state with 1<k<n, "
         "a flip of >=4 entries, a load/save of a complex vector; distinct = distinct canonical JSON of the case")
 TRUSTED = [
+    "np.shares_memory(a, b) is exact overlap of two ndarrays; equal data pointer + shape + strides + dtype = the same cells",
     "np.isclose(s, 1.0) <=> |s-1| <= 1e-8+1e-5 (modelled by isClose; theorems hold for every predicate `close`)",
     "float rounding: the generators emit a numeric operation only if the exact sum it would produce is 1, or off the "
     "boundary |s-1| = 1e-8+1e-5 by more than 1e-9 (numeric part next to symbols: off 1 by more than 1e-9, or exactly 1); the "
@@ -45,6 +52,8 @@ ASSUMPTIONS = [
 ]
 
 SIG_MATRIX_SLICE = "matrix-slice-rejected-modified"
+SIG_PARTIAL_VIEW = "shared-partial-view-unnormalised"
+SIG_HELD_MATRIX = "held-matrix-keeps-rejected-value"
 
 
 def _mods():
@@ -274,6 +283,45 @@ def _corpus_drift():
     return out
 
 
+def _corpus_shared():
+    """several live objects over one buffer (the constructor keeps a complex ndarray it is given, `amplitudes` hands out
+    the stored array): accepted and rejected assignments on either; a rejected one leaves ALL of them, and the arrays the
+    caller holds, exactly as they were"""
+    v = [["3/5", 0], ["4/5", 0], [0, 0], [0, 0]]
+    swap = {"op": "slice", "start": 0, "stop": 2, "vals": [["4/5", 0], ["3/5", 0]]}
+    out = []
+    for how, container in [("amplitudes", "ndarray"), ("view", "ndarray"), ("source", "ndarray"), ("source", "strided"),
+                           ("reshape", "list"), ("reversed", "ndarray"), ("col", "tuple"), ("copy", "ndarray")]:
+        out.append({"kind": "ops", "exact": False, "container": container, "vec": v, "ops": [
+            {"op": "clone", "how": how, "on": 0}, {"op": "hold", "on": 0}, dict(swap, on=0),
+            {"op": "set", "i": 2, "val": ["1/2", 0], "on": 0},            # rejected on the first …
+            {"op": "set", "i": 3, "val": [0, 0], "on": 1},                # … a no-op on the second is still accepted
+            {"op": "set", "i": -1, "val": [0, "1/2"], "on": 1},           # rejected on the second
+            {"op": "clone", "how": "held", "on": 1}, {"op": "set", "i": 0, "val": ["-4/5", 0], "on": 2},
+            {"op": "slice", "start": 1, "stop": 3, "val": ["3/5", 0], "on": 2}, {"op": "flip", "on": 1},
+            {"op": "set", "i": 1, "val": [1, 0], "on": 0}]})
+    # the same on an (n,1) array that a complete binding produced, and on a clone of a symbol-free Matrix
+    sym = [_X("x"), ["4/5", 0], [0, 0], [0, 0]]
+    tail = [{"op": "clone", "how": "amplitudes", "on": 1}, {"op": "hold", "on": 1}, {"op": "set", "i": 2, "val": ["1/2", 0], "on": 1},
+            {"op": "set", "i": 0, "val": ["-3/5", 0], "on": 2}, {"op": "set", "i": 3, "val": [0, "1/2"], "on": 2},
+            {"op": "set", "i": 1, "val": [0, "4/5"], "on": 1}]
+    out.append({"kind": "ops", "exact": True, "vec": sym, "ops": [{"op": "bind", "map": [["x", ["3/5", 0]]]}] + tail})
+    out.append({"kind": "ops", "exact": True, "vec": sym, "ops": [{"op": "clone", "how": "amplitudes", "on": 0},
+                                                                   {"op": "set", "i": 0, "val": ["3/5", 0], "on": 0}] + tail})
+    # KNOWN FINDING (unchanged library): a symbol-free sympy-backed object hands out its Matrix itself; a rejected assignment
+    # restores the object by re-binding to a copy, so the Matrix the caller holds keeps the rejected value
+    out.append({"kind": "ops", "exact": True, "vec": [_X("x"), ["3/5", 0]], "ops": [
+        {"op": "set", "i": 0, "val": ["4/5", 0]}, {"op": "hold"}, {"op": "set", "i": 0, "val": ["1/2", 0]},
+        {"op": "set", "i": 1, "val": ["-3/5", 0]}]})
+    # KNOWN FINDING (unchanged library): an object made from a PART of another's amplitudes is a view of its buffer; an
+    # accepted assignment on the whole moves the weight out of the part, which is left with probabilities summing to 0
+    out.append({"kind": "ops", "exact": False, "container": "ndarray", "vec": v, "ops": [
+        {"op": "clone", "how": "half_lo", "on": 0},
+        {"op": "slice", "start": None, "stop": None, "vals": [[0, 0], [0, 0], ["3/5", 0], ["4/5", 0]], "on": 0},
+        {"op": "set", "i": 0, "val": [0, 0], "on": 1}]})
+    return out
+
+
 def corpus():
     return [
         # F5 (fixed in 3fba136): a rejected slice assignment must leave the vector as it was
@@ -313,7 +361,7 @@ def corpus():
                  {"op": "set", "i": 1, "val": ["500008/1000000", 0], "np": True}]},
         # numeric entries a few parts in a million above 1 next to a symbol: nothing to create
         {"kind": "ops", "exact": True, "vec": [_X("x"), ["3/5", 0], [0, "800002/1000000"], [0, 0]], "ops": []},
-    ] + _corpus_drift() + [
+    ] + _corpus_drift() + _corpus_shared() + [
         {"kind": "dicke", "n": 4, "k": 2},
         {"kind": "dicke", "n": 3, "k": 3},
         {"kind": "dicke", "n": 0, "k": 0},
@@ -582,9 +630,21 @@ def _gen_alias_ops(rng, big):
             good[nm] = _mulc(target[p_], (1 / coef, Fraction(0)))
             vec[p_] = {"c": [0, 0], "t": [[nm, [rat(coef), 0]]]}
     ops = []
+    sharing = rng.random() < 0.5
+    if sharing and not symbolic and rng.random() < 0.6:
+        case_container = rng.choice(["ndarray", "strided"])
+    else:
+        case_container = None
     for _ in range(rng.randrange(3, 10 if big else 8)):
         on = rng.randrange(0, 6)
         r = rng.random()
+        if sharing and rng.random() < 0.22:
+            # a second object from what the first hands out (values only: same, copied, or from the caller's own arrays)
+            if rng.random() < 0.8:
+                ops.append({"op": "clone", "how": rng.choice(CLONE_SAME + CLONE_SAME + CLONE_FRESH), "on": on})
+            else:
+                ops.append({"op": "hold", "on": on})
+            continue
         if r < 0.16:
             ops.append({"op": "bind", "map": [], "on": on})
         elif r < 0.30:
@@ -620,7 +680,10 @@ def _gen_alias_ops(rng, big):
                 ops.append({"op": "slice", "start": a, "stop": b, "vals": [_j(v) for v in vals], "on": on})
             else:
                 ops.append({"op": "slice", "start": a, "stop": b, "val": _j(_pool_value(rng, dy)), "on": on})
-    return {"kind": "ops", "exact": exact, "vec": vec, "ops": ops}
+    case = {"kind": "ops", "exact": exact, "vec": vec, "ops": ops}
+    if case_container and not exact:
+        case["container"] = case_container
+    return case
 
 
 def _scatter(rng, case):
@@ -982,6 +1045,154 @@ def _gen_near_ops(rng, big, wide=None):
     return {"kind": "ops", "exact": False, "vec": [[1, 0], [0, 0]], "ops": []}
 
 
+# ------------------------------------------------------------------ several live objects over shared storage
+class _BufSim:
+    """buffers and the objects / caller's arrays that are views of them, as the unchanged library lays them out (the
+    constructor keeps a complex ndarray it is given; `amplitudes` hands out the stored array).  Generator side only: it
+    steers the values so that histories mix accepted and rejected steps; what is really shared is MEASURED in run_impl."""
+
+    def __init__(self, vec, shares_source, dim=1):
+        self.bufs = [list(vec)]
+        self.objs = [(0, list(range(len(vec))), dim)]  # buffer, cells, 1 = (n,) array / 2 = (n,1) array
+        self.source = (0, list(range(len(vec))), dim) if shares_source else None
+        self.held = []
+
+    def content(self, k):
+        b, cells, _dim = self.objs[k]
+        return [self.bufs[b][c_] for c_ in cells]
+
+    def write(self, k, ps, vals, allow_break=False, as_list=False):
+        b, cells, dim = self.objs[k]
+        if as_list and dim == 2 and len(ps) > 1:
+            return False  # numpy does not broadcast m values into an (m,1) block: refused before anything is written
+        new = list(self.bufs[b])
+        for p_, v in zip(ps, vals):
+            new[cells[p_]] = v
+        v = _verdict_numeric(sum((_nsq(new[c_]) for c_ in cells), Fraction(0)))
+        if v is None:
+            return None
+        if v:
+            for (b2, cells2, _d2) in self.objs:
+                if b2 == b and _verdict_numeric(sum((_nsq(new[c_]) for c_ in cells2), Fraction(0))) is not True \
+                        and not allow_break:
+                    return None  # would leave a partial view unnormalised (the known finding): not generated here
+            self.bufs[b] = new
+        return v
+
+    def clone(self, k, how, src=None):
+        """returns False if the constructor must refuse, None if too close to call, else True (object appended)"""
+        b, cells, dim = src if src is not None else self.objs[k]
+        n = len(cells)
+        if how == "reversed":
+            view = (b, cells[::-1], dim)
+        elif how == "half_lo":
+            view = (b, cells[: max(1, n // 2)], dim)
+        elif how == "half_hi":
+            view = (b, cells[n // 2:], dim)
+        elif how in CLONE_FRESH:
+            self.bufs.append([self.bufs[b][c_] for c_ in cells])
+            view = (len(self.bufs) - 1, list(range(n)), 1 if how == "list" else dim)
+        else:
+            view = (b, list(cells), 2 if how == "col" else (1 if how == "flat" else dim))
+        v = _verdict_numeric(sum((_nsq(self.bufs[view[0]][c_]) for c_ in view[1]), Fraction(0)))
+        if v:
+            self.objs.append(view)
+        return v
+
+    def fresh(self, vals, dim):
+        self.bufs.append(list(vals))
+        self.objs.append((len(self.bufs) - 1, list(range(len(vals))), dim))
+
+
+def _gen_shared_ops(rng, big, partial=False):
+    """numeric histories with several live objects over shared storage: clones from `amplitudes`, from views / reshapes /
+    the reverse / (partial=True) one half of it, from the array the caller built the first object from or still holds,
+    from copies; accepted and rejected assignments (exact, and at the tolerance boundary) on any of them, flips,
+    save+load and trivial bindings in between."""
+    for _attempt in range(20):
+        nq = rng.choice([1, 2, 2, 2, 3] + ([3, 4] if big else []))
+        n = 2 ** nq
+        dy = rng.random() < 0.3
+        target = _unit_vector(rng, n, dy)
+        if partial:
+            # all the weight in one half, so that a half of the vector is a wavefunction of its own
+            half = _unit_vector(rng, max(1, n // 2), dy)
+            zeros = [(Fraction(0), Fraction(0))] * (n - len(half))
+            target = half + zeros if rng.random() < 0.5 else zeros + half
+        container = rng.choice(["ndarray", "ndarray", "strided", "list", "tuple", "matrix", "matrix"])
+        case = {"kind": "ops", "exact": container == "matrix", "vec": [_j(z) for z in target], "ops": [],
+                "container": container}
+        sim = _BufSim(target, container in ("ndarray", "strided"), 2 if container == "matrix" else 1)
+        ops = []
+        hows = CLONE_SAME * 3 + CLONE_FRESH + ["reversed", "col", "flat"] + (["half_lo", "half_hi"] * 4 if partial else [])
+        bad = False
+        for step in range(rng.randrange(4, 12 if big else 10)):
+            k = rng.randrange(len(sim.objs))
+            cur = sim.content(k)
+            m = len(cur)
+            t = rng.random()
+            if step == 0 or t < 0.22:
+                how = rng.choice(hows)
+                if how == "source" and sim.source is None:
+                    how = "amplitudes"
+                if how == "held" and not sim.held:
+                    how = "view"
+                src = sim.source if how == "source" else (sim.held[-1] if how == "held" else None)
+                if sim.clone(k, how, src) is None:
+                    continue
+                ops.append({"op": "clone", "how": how, "on": k})
+            elif t < 0.30:
+                sim.held.append(sim.objs[k])
+                ops.append({"op": "hold", "on": k})
+            elif t < 0.38:
+                ops.append({"op": rng.choice(["flip", "reload"]), "on": k})
+                sim.fresh(_bitrev_list(cur) if ops[-1]["op"] == "flip" else cur, sim.objs[k][2])
+            elif t < 0.42:
+                ops.append({"op": "bind", "map": [["gamma", _j(_pool_value(rng, dy))]] if rng.random() < 0.5 else [], "on": k})
+            else:
+                u = rng.random()
+                if u < 0.30:  # change of phase: accepted
+                    p = rng.randrange(m)
+                    ph = rng.choice(PHASES[:4] if dy else PHASES)
+                    ps, vals = [p], [_mulc(cur[p], (Fraction(ph[0]), Fraction(ph[1])))]
+                    op = {"op": "set", "i": rng.choice([p, p - m]), "val": _j(vals[0])}
+                elif u < 0.50:  # permutation of a block: accepted
+                    a, b = sorted([rng.randrange(0, m + 1), rng.randrange(0, m + 1)])
+                    ps = list(range(a, b))
+                    vals = [cur[q] for q in ps]
+                    rng.shuffle(vals)
+                    op = {"op": "slice", "start": a, "stop": b, "vals": [_j(v) for v in vals]}
+                elif u < 0.62:  # at the tolerance boundary (either side)
+                    nz = [i for i in range(m) if _nsq(cur[i]) != 0]
+                    if not nz:
+                        continue
+                    p = rng.choice(nz)
+                    cc = rng.choice(NEAR_C) * rng.choice([1, -1])
+                    f = _rfrac(1 + (1 + cc * LIB_TOL - sum(_nsq(z) for z in cur)) / (2 * _nsq(cur[p])), 12)
+                    ps, vals = [p], [_scale(cur[p], f)]
+                    op = {"op": "set", "i": p, "val": _j(vals[0]), "np": rng.random() < 0.3}
+                elif u < 0.85:  # a value that does not fit: rejected (mostly)
+                    p = rng.randrange(m)
+                    ps, vals = [p], [_pool_value(rng, dy)]
+                    op = {"op": "set", "i": rng.choice([p, p - m]), "val": _j(vals[0])}
+                else:  # a block of values that do not fit
+                    a, b = sorted([rng.randrange(0, m + 1), rng.randrange(0, m + 1)])
+                    ps = list(range(a, b))
+                    vals = [_pool_value(rng, dy) for _ in ps]
+                    op = {"op": "slice", "start": a, "stop": b, "vals": [_j(v) for v in vals]}
+                if sim.write(k, ps, vals, allow_break=partial, as_list="vals" in op) is None:
+                    continue
+                if not op.get("np", True):
+                    op.pop("np")
+                op["on"] = k
+                ops.append(op)
+        if bad or not any(o_["op"] == "clone" for o_ in ops):
+            continue
+        case["ops"] = ops
+        return case
+    return {"kind": "ops", "exact": False, "vec": [[1, 0], [0, 0]], "ops": []}
+
+
 FLIP_ARGS = ["list", "tuple", "ndarray", "col", "strided", "complex"]
 
 EXPR_CASES = [
@@ -1035,6 +1246,10 @@ def generate(rng, tier):
         cases.append(_gen_alias_ops(rng, big))
     for _ in range(2500 if big else 170):
         cases.append(_gen_near_ops(rng, big))
+    for _ in range(2500 if big else 170):
+        cases.append(_gen_shared_ops(rng, big))
+    for _ in range(40 if big else 4):
+        cases.append(_gen_shared_ops(rng, big, partial=True))
     for exprs, binds in EXPR_CASES:
         cases.append({"kind": "expr", "vec": exprs, "binds": binds})
     # Dicke states: all (n, k) up to the width, and invalid requests
@@ -1121,11 +1336,84 @@ def _build_vec(c, np, sympy):
     return vals
 
 
-def _apply_op(W, np, sympy, wf, op, exact):
+CLONE_SAME = ["amplitudes", "view", "reshape", "source", "held"]      # the new object is to hold what the source holds
+CLONE_OTHER = ["reversed", "col", "flat", "half_lo", "half_hi"]        # … the reverse / the other shape / one half of it
+CLONE_FRESH = ["copy", "list"]                                         # … what the source holds, from a copy
+
+
+def _clone_arg(np, wf, how, ctx):
+    """the constructor argument of a clone: what a caller can get out of a live object (or still holds)"""
+    if how == "source":
+        return ctx["source"] if ctx["source"] is not None else wf.amplitudes
+    if how == "held":
+        return ctx["held"][-1] if ctx["held"] else wf.amplitudes
+    a = wf.amplitudes
+    if not isinstance(a, np.ndarray):
+        return a  # a symbol-free sympy Matrix: handed over as it is
+    n = a.shape[0]
+    if how == "view":
+        return a[:]
+    if how == "reshape":
+        return a.reshape(a.shape)
+    if how == "reversed":
+        return a[::-1]
+    if how == "col":
+        return a.reshape(n, 1)
+    if how == "flat":
+        return a.reshape(-1)
+    if how == "half_lo":
+        return a[: max(1, n // 2)]
+    if how == "half_hi":
+        return a[n // 2:]
+    if how == "copy":
+        return np.array(a, copy=True)
+    if how == "list":
+        return [z for z in a.reshape(-1)]
+    return a
+
+
+def _storage(wf):
+    return wf._amplitude_vector
+
+
+def _shares(np, a, b):
+    """do two stores overlap (numpy buffers: np.shares_memory; sympy matrices: one object / one entry list)"""
+    if isinstance(a, np.ndarray) and isinstance(b, np.ndarray):
+        return bool(np.shares_memory(a, b))
+    if isinstance(a, np.ndarray) or isinstance(b, np.ndarray):
+        return False
+    if a is b:
+        return True
+    fa, fb = getattr(a, "_rep", None), getattr(b, "_rep", None)
+    return fa is not None and fa is fb
+
+
+def _same_cells(np, a, b):
+    """two stores that are the SAME cells in the same order (then they always hold the same values)"""
+    if isinstance(a, np.ndarray) and isinstance(b, np.ndarray):
+        return (a.shape == b.shape and a.strides == b.strides and a.dtype == b.dtype
+                and a.__array_interface__["data"][0] == b.__array_interface__["data"][0])
+    return a is b
+
+
+def _raw(np, arr):
+    return [repr(complex(z)) if not hasattr(z, "free_symbols") or not z.free_symbols else str(z)
+            for z in np.asarray(arr).reshape(-1)]
+
+
+def _apply_op(W, np, sympy, wf, op, exact, ctx=None):
     """returns (wf_after, outcome, extra)"""
     extra = {}
     try:
-        if op["op"] == "set" and op.get("np"):
+        if op["op"] == "clone":
+            # a second object made from what the first one hands out (or from the array the caller built it from / still
+            # holds).  Whether the two then share storage is the library's business; it is measured, not assumed.
+            wf = W.Wavefunction(_clone_arg(np, wf, op["how"], ctx))
+        elif op["op"] == "hold":
+            # the caller keeps what `amplitudes` handed out; it is only ever looked at afterwards
+            ctx["held"].append(wf.amplitudes)
+            ctx["held_family"].append(ctx["family_of_target"])
+        elif op["op"] == "set" and op.get("np"):
             # numpy scalars as index and value: the same assignment
             val = _to_py(op["val"], exact, sympy)
             if isinstance(val, (float, complex)):
@@ -1172,25 +1460,80 @@ def run_impl(c):
     k = c["kind"]
     if k == "ops":
         exact = c["exact"]
+        source = _build_vec(c, np, sympy)
         try:
-            wf = W.Wavefunction(_build_vec(c, np, sympy))
+            wf = W.Wavefunction(source)
         except ValueError as e:
             return {"init": "err:value", "msg": str(e)[:60]}
         probs0 = _probs(wf, np)
         out = {"init": {"snap": _snap(wf, np, sympy), "probs": probs0}, "steps": []}
         objs = [wf]  # EVERY object the history produced stays alive and is inspected after every later operation
+        # objects made by the constructor from one another's amplitudes form a FAMILY: within it the library may let them
+        # share storage (measured below); results of bind / flip / save+load start a family of their own
+        family = [0]
+        ctx = {"source": source if isinstance(source, np.ndarray) else None, "held": [], "held_family": []}
+        watch = bool(ctx["source"] is not None or any(o_["op"] in ("clone", "hold") for o_ in c["ops"]))
+
+        def arrays():
+            return ([ctx["source"]] if ctx["source"] is not None else []) + ctx["held"]
+
+        saved = {}
+
+        def remember():
+            for j_, o_ in enumerate(objs):
+                st_ = _storage(o_)
+                saved[j_] = np.array(st_, copy=True) if isinstance(st_, np.ndarray) and st_.dtype != object else None
+
+        remember()
+        if watch:
+            out["init"]["arrays"] = [_raw(np, a_) for a_ in arrays()]
+            out["init"]["has_source"] = ctx["source"] is not None
         for op in c["ops"]:
             k = (op["on"] % len(objs)) if "on" in op else len(objs) - 1
-            after, res, extra = _apply_op(W, np, sympy, objs[k], op, exact)
+            tk = _storage(objs[k])
+            n_before = len(objs)
+            shared = [_shares(np, _storage(o_), tk) for o_ in objs]
+            cells = [_same_cells(np, _storage(o_), tk) for o_ in objs]
+            arr_shared = [_shares(np, a_, tk) for a_ in arrays()]
+            ctx["family_of_target"] = family[k]
+            after, res, extra = _apply_op(W, np, sympy, objs[k], op, exact, ctx)
             new_idx = None
             r = next((j for j, o in enumerate(objs) if o is after), None)
             if r is None:
                 objs.append(after)
                 r = new_idx = len(objs) - 1
+                if op["op"] == "clone":
+                    family.append(ctx["held_family"][-1] if op["how"] == "held" and ctx["held"] else
+                                  (0 if op["how"] == "source" and ctx["source"] is not None else family[k]))
+                else:
+                    family.append(max(family) + 1)
+            # what every object holds BEFORE anything is read out of it, then the read-outs, then the full snapshots
+            pre = [_raw(np, _storage(o_)) if isinstance(_storage(o_), np.ndarray) else None for o_ in objs]
             probs = _probs(objs[r], np)
+            probs_all = [probs if j == r else _probs(o_, np) for j, o_ in enumerate(objs)]
             snaps = [_snap(o, np, sympy) for o in objs]
-            out["steps"].append({"out": res, "target": k, "result": r, "new": new_idx, "snaps": snaps,
-                                 "snap": snaps[r], "probs": probs, **extra})
+            readout_intact = [p_ is None or p_ == sn_["exact"] for p_, sn_ in zip(pre, snaps)]
+            # `==` against a fresh object made from a private copy of what the object held after the previous step
+            eq_prev = []
+            for j_ in range(n_before):
+                if saved.get(j_) is None:
+                    eq_prev.append(None)
+                    continue
+                try:
+                    eq_prev.append(bool(objs[j_] == W.Wavefunction(saved[j_].copy())))
+                except Exception as e:  # noqa: BLE001 – judged by the oracle
+                    eq_prev.append("raised " + repr(e)[:60])
+            remember()
+            step = {"out": res, "target": k, "result": r, "new": new_idx, "snaps": snaps,
+                    "snap": snaps[r], "probs": probs, "probs_all": probs_all, "readout_intact": readout_intact,
+                    "eq_prev": eq_prev, "family": list(family),
+                    "shared": [bool(sh_ and family[j_] == family[k]) for j_, sh_ in enumerate(shared)],
+                    "shared_any": shared, "cells": cells, **extra}
+            if watch:
+                step["arrays"] = [_raw(np, a_) for a_ in arrays()]
+                step["arr_shared"] = arr_shared
+                step["arr_is_matrix"] = [not isinstance(a_, np.ndarray) for a_ in arrays()]
+            out["steps"].append(step)
         _SEEN_OUTCOMES[common.canon(c)] = (any(s_["out"] == "ok" for s_ in out["steps"]),
                                            any(s_["out"] != "ok" for s_ in out["steps"]))
         return out
@@ -1356,20 +1699,64 @@ def _lineages(c, out):
     """per live object: the indices of the operations that made its value (the operations on its ancestors before it
     was produced, the producing operation, the operations on itself).  The model follows one object at a time."""
     if not isinstance(out, dict) or "steps" not in out:
-        return [list(range(len(c["ops"])))]
+        return [[t for t, o_ in enumerate(c["ops"]) if o_["op"] not in ("clone", "hold")]]
     lin = {0: []}
     for t, st in enumerate(out["steps"]):
         k = st["target"]
+        what = c["ops"][t]["op"]
+        if what == "hold":
+            continue
+        if what == "clone":
+            # the model has values, not storage: a clone starts with the history that made its source's value
+            if st["new"] is not None:
+                src = k
+                if c["ops"][t]["how"] in ("source", "held"):
+                    # made from an array the caller holds: the values are those of whichever object holds the same now
+                    sn = st["snaps"][st["new"]]
+                    src = next((j for j in sorted(lin) if st["snaps"][j]["exact"] == sn["exact"]
+                                and st["snaps"][j]["kind"] == sn["kind"] and lin[j] is not None), None)
+                lin[st["new"]] = list(lin[src]) if src is not None and lin[src] is not None else None
+            continue
+        if lin[k] is None:
+            if st["new"] is not None:
+                lin[st["new"]] = None
+            continue
         if st["new"] is not None:
             lin[st["new"]] = lin[k] + [t]
         else:
             lin[k] = lin[k] + [t]
+            # the shared cell, as measured on the implementation: an accepted assignment is also an operation on every
+            # object that is the same cells as the target and now shows the target's new values
+            if what in ("set", "slice") and st["out"] == "ok":
+                for j, same in enumerate(st.get("cells", [])):
+                    if j != k and same and lin.get(j) is not None and st["snaps"][j]["exact"] == st["snaps"][k]["exact"] \
+                            and st["snaps"][j]["kind"] == st["snaps"][k]["kind"]:
+                        lin[j] = lin[j] + [t]
     return [lin[j] for j in range(len(lin))]
+
+
+def _model_free(c, out):
+    """histories the value model cannot follow: a clone that is the reverse / another shape / a part of its source, or
+    whose representation differs from its source's (symbol-free Matrix -> (n,1) array)"""
+    if not isinstance(out, dict) or "steps" not in out:
+        return False
+    for op, st in zip(c["ops"], out["steps"]):
+        if op["op"] != "clone":
+            continue
+        if op["how"] in CLONE_OTHER:
+            return True
+        if st["new"] is not None and st["snaps"][st["new"]]["kind"] != st["snaps"][st["target"]]["kind"]:
+            return True
+        if st["out"] != "ok":
+            return True
+    return any(l_ is None for l_ in _lineages(c, out))
 
 
 def requests(c, out):
     k = c["kind"]
     if k == "ops":
+        if _model_free(c, out):
+            return []
         lins = _lineages(c, out)
         col = c.get("container") == "matrix"
         return [("run", {"vec": c["vec"], "col": col, "ops": [_strip_on(c["ops"][t]) for t in lin]}) for lin in lins]
@@ -1614,11 +2001,33 @@ def oracle(c, out):
         if pf:
             return ("probabilities", f"Wavefunction({c['vec']}): {pf}")
         held = [prev]  # what every live object holds (results are values: only the object operated on may change)
+        arrays = init.get("arrays", [])  # what the caller's own arrays hold (the constructor argument, held `amplitudes`)
         for t, (op, st) in enumerate(zip(c["ops"], out["steps"])):
             k, r, snaps = st["target"], st["result"], st["snaps"]
             prev, snap = held[k], snaps[r]
             where = f"op {t} {op} on object {k} = {_show(prev)}"
             mat_slice = prev["kind"] == "mat" and op["op"] == "slice"
+            assign = op["op"] in ("set", "slice")
+            # the caller's arrays: a rejected operation leaves them exactly as they were; an accepted assignment may show
+            # in those that (measured) share the target's buffer; nothing else writes to them
+            now = st.get("arrays", [])
+            # Only the array the CALLER PASSED IN (index 0 when there is one) is judged: a handle the library handed out
+            # earlier (`wf.amplitudes` held by the caller) is not a wavefunction object and the property says nothing
+            # about it (a Matrix handed out before a rejected assignment keeps the rejected value on the unchanged
+            # library, while the object itself is exactly as it was) - judging it would demand more than C12 states.
+            n_src = 1 if init.get("has_source") else 0
+            for i_, (was, is_now) in enumerate(zip(arrays, now)):
+                if i_ >= n_src:
+                    continue
+                if was != is_now and not (st["out"] == "ok" and assign and st["arr_shared"][i_]):
+                    if st["out"] != "ok" and assign and st["arr_is_matrix"][i_] and st["arr_shared"][i_]:
+                        return (SIG_HELD_MATRIX,
+                                f"{where} raised {st['out']} and the object is as it was, but the sympy Matrix its `amplitudes` "
+                                f"handed out earlier keeps the rejected value: {was} -> {is_now}")
+                    return ("caller-array-modified",
+                            f"{where} ({st['out']}) changed array {i_} held by the caller (the constructor argument / a held "
+                            f"wf.amplitudes) from {was} to {is_now}")
+            arrays_before, arrays = arrays, now
             if st["out"] != "ok":
                 if snap["exact"] != prev["exact"] or snap["kind"] != prev["kind"]:
                     sig = SIG_MATRIX_SLICE if mat_slice else "rejected-op-modified"
@@ -1633,24 +2042,61 @@ def oracle(c, out):
                 return (sig, f"after {where} ({st['out']}): {msg}")
             if st.get("orig_intact") is False:
                 return ("bind-modifies-original", f"{where}: the original object was modified")
-            if st["out"] == "ok" and not mat_slice:
+            if st["out"] == "ok" and op["op"] == "clone":
+                msg = _clone_fail(op, prev, snap, arrays_before, init.get("has_source", False))
+                if msg:
+                    return ("clone-wrong-contents", f"{where}: {msg}; got {_show(snap)}")
+            elif st["out"] == "ok" and not mat_slice:
                 msg = _accepted_fail(op, prev, snap)
                 if msg:
                     return ("accepted-op-wrong-contents", f"{where}: {msg}; got {_show(snap)}")
             pf = _probs_fail(snap, st["probs"])
             if pf:
                 return ("probabilities", f"after {where}: {pf}")
-            # every OTHER live object (the receiver of bind / flip / save+load included) holds exactly what it held
+            # every OTHER live object (the receiver of bind / flip / save+load / clone included) holds exactly what it
+            # held – except that an ACCEPTED assignment may show in an object of the target's family (made by the
+            # constructor from the other's amplitudes) that was measured to share the target's storage; such an object
+            # then holds its old values or, if it is the same cells, the target's new ones, and is still normalised
             for j, sj in enumerate(snaps):
                 if j == r or j >= len(held):
                     continue
-                if sj["exact"] != held[j]["exact"] or sj["kind"] != held[j]["kind"]:
+                may_show = st["out"] == "ok" and assign and j < len(st.get("shared", [])) and st["shared"][j]
+                msg = _inv_fail(sj)
+                if msg:
+                    if may_show and sj["n"] != snap["n"]:
+                        return (SIG_PARTIAL_VIEW, f"after {where} (ok): object {j}, made from a PART of the amplitudes "
+                                                  f"object {k} handed out and sharing its storage, = {_show(sj)}: {msg}")
+                    sig = "shared-sibling-unnormalised" if may_show else "other-object-modified"
+                    return (sig, f"after {where} ({st['out']}): object {j} = {_show(sj)} (held {_show(held[j])}): {msg}")
+                changed = sj["exact"] != held[j]["exact"] or sj["kind"] != held[j]["kind"]
+                if changed and may_show:
+                    if st["cells"][j] and sj["exact"] != snap["exact"]:
+                        return ("shared-sibling-inconsistent",
+                                f"{where} (ok): object {j} is the same cells as object {k} but holds {_show(sj)}, "
+                                f"object {k} holds {_show(snap)}")
+                    continue
+                if changed:
                     sig = "receiver-modified" if j == k else "other-object-modified"
                     return (sig, f"{where} ({st['out']}) changed object {j} (produced earlier in this history, not operated "
                                  f"on) from {_show(held[j])} to {_show(sj)}")
-                msg = _inv_fail(sj)
-                if msg:
-                    return ("other-object-modified", f"after {where}: object {j} = {_show(sj)}: {msg}")
+                eq = st.get("eq_prev", [])
+                if j < len(eq) and eq[j] not in (None, True) and held[j]["kind"] in ("arr1", "arr2"):
+                    return ("other-object-modified", f"after {where} ({st['out']}): object {j} no longer compares equal (==) "
+                                                     f"to a wavefunction made from a copy of what it held, {_show(held[j])}: {eq[j]}")
+            # the same for the target of a rejected operation, through the public comparison
+            eq = st.get("eq_prev", [])
+            if st["out"] != "ok" and k < len(eq) and eq[k] not in (None, True) and prev["kind"] in ("arr1", "arr2"):
+                return ("rejected-op-modified", f"{where} raised {st['out']} but the object no longer compares equal (==) to a "
+                                                f"wavefunction made from a copy of what it held: {eq[k]}")
+            # every live object: reading the probabilities changes nothing, and they are the squared magnitudes summing to 1
+            for j, sj in enumerate(snaps):
+                if st.get("readout_intact") and not st["readout_intact"][j]:
+                    return ("readout-modifies-object", f"after {where}: reading get_probabilities() / amplitudes of object {j} "
+                                                       f"changed what it holds to {_show(sj)}")
+                if j != r and "probs_all" in st:
+                    pf = _probs_fail(sj, st["probs_all"][j])
+                    if pf:
+                        return ("probabilities", f"after {where}: object {j}: {pf}")
             held = list(snaps)
         return None
     if k == "expr":
@@ -1794,9 +2240,41 @@ def _probs_fail(snap, probs):
     return None
 
 
+def _clone_fail(op, prev, snap, arrays_before, has_source):
+    """Wavefunction(<what object k hands out / what the caller holds>) holds those values"""
+    how = op["how"]
+    expect = None
+    if how == "source" and has_source:
+        expect = arrays_before[0]
+    elif how == "held" and len(arrays_before) > (1 if has_source else 0):
+        expect = arrays_before[-1]
+    if expect is not None:
+        if snap["kind"] in ("arr1", "arr2") and snap["exact"] != expect:
+            return f"the caller's array held {expect}"
+        return None
+    want = list(prev["v"])
+    if prev["kind"] in ("arr1", "arr2") or any(e[0] != "num" for e in prev["v"]):
+        # (a symbol-free sympy Matrix is handed over whole whatever the case asks for)
+        n = len(want)
+        if how == "reversed":
+            want = want[::-1]
+        elif how == "half_lo":
+            want = want[: max(1, n // 2)]
+        elif how == "half_hi":
+            want = want[n // 2:]
+    if len(want) != len(snap["v"]):
+        return f"it should have {len(want)} entries"
+    for i, (a, b) in enumerate(zip(want, snap["v"])):
+        if not _same_entry(a, b, 1e-12):
+            return f"entry {i} should be {a}"
+    return None
+
+
 def _accepted_fail(op, prev, snap):
     """what an accepted operation must have produced, from the op's own meaning"""
     n = prev["n"]
+    if op["op"] == "hold":
+        return None if snap["exact"] == prev["exact"] else "handing out the amplitudes changed the object"
     if len(snap["v"]) != n:
         return "length changed"
     if op["op"] == "set":
@@ -1829,6 +2307,18 @@ def _accepted_fail(op, prev, snap):
         if not _same_entry(a, b, 1e-9):
             return f"entry {i} should be {a}"
     return None
+
+
+def _clone_shared(o, st):
+    """did the clone made in step st come out sharing storage with anything (seen in the NEXT step's measurement, or in
+    this history's later steps)"""
+    new = st["new"]
+    for later in o["steps"]:
+        sh = later.get("shared_any", [])
+        if later is not st and len(sh) > new and (later["target"] == new and any(x for j, x in enumerate(sh) if j != new)
+                                                  or later["target"] != new and sh[new]):
+            return True
+    return False
 
 
 def distribution(cases, outs):
@@ -1884,7 +2374,31 @@ def distribution(cases, outs):
                     near_states += 1
                 else:
                     near_rejected += 1
-    return {"states_within_1e-3_of_unit_sum_but_not_exact_after_accepted_op": near_states,
+    sharing = {"steps_with_a_sibling_sharing_the_targets_buffer": 0, "rejected_steps_with_such_a_sibling": 0,
+               "accepted_assignments_showing_in_a_sibling": 0, "clones": {}, "held_arrays": 0, "histories_not_modelled": 0}
+    for c, o in zip(cases, outs):
+        if c["kind"] != "ops" or not isinstance(o, dict) or not isinstance(o.get("init"), dict):
+            continue
+        if any(op["op"] in ("clone", "hold") for op in c["ops"]) and _model_free(c, o):
+            sharing["histories_not_modelled"] += 1
+        prev_snaps = None
+        for op, st in zip(c["ops"], o["steps"]):
+            if op["op"] == "clone":
+                key = op["how"] + (":shares-a-buffer-later" if st["new"] is not None and _clone_shared(o, st) else ":separate")
+                sharing["clones"][key] = sharing["clones"].get(key, 0) + 1
+            if op["op"] == "hold":
+                sharing["held_arrays"] += 1
+            sib = [j for j, sh in enumerate(st.get("shared", [])) if sh and j != st["target"]]
+            if sib:
+                sharing["steps_with_a_sibling_sharing_the_targets_buffer"] += 1
+                if st["out"] != "ok":
+                    sharing["rejected_steps_with_such_a_sibling"] += 1
+                elif op["op"] in ("set", "slice") and prev_snaps is not None and any(
+                        j < len(prev_snaps) and st["snaps"][j]["exact"] != prev_snaps[j]["exact"] for j in sib):
+                    sharing["accepted_assignments_showing_in_a_sibling"] += 1
+            prev_snaps = st["snaps"]
+    return {"shared_storage": sharing,
+            "states_within_1e-3_of_unit_sum_but_not_exact_after_accepted_op": near_states,
             "ops_rejected_on_such_states": near_rejected, "constructor_refusals_within_1e-3_of_unit_sum": near_ctor_rejected,
             "constructor_argument_kinds": containers,
             "live_objects_per_history": {str(k_): v for k_, v in sorted(objs_hist.items())},
